@@ -257,6 +257,11 @@ def _handler_rules(ctx, body, writer, is_request):
             rp = resolve_path(P, body, fields[f])
             good = rp is not None and "DHCPRequest" in param_ty(rp[0], rp[1]) and rp[2] == ("pkt", f)
             ctx.check(good, "R6", "reply.%s<-request.%s:%s" % (f, f, tag), where, "reply `%s` must echo the request's (is %s)" % (f, show(norm(fields[f]))[:100]))
+        # the address the client is told is the address the pool recorded for it
+        y = norm(fields.get("yiaddr", ("unknown",)))
+        good = y[0] == "field" and y[2] == "ip" and any(z[0] == "call" and z[1] == writer for z in subterms(y))
+        ctx.check(good, "R6", "reply.yiaddr<-recorded-lease:%s" % tag, where,
+                  "yiaddr must be the address of the lease the allocator returned (and recorded), nothing else (is %s)" % show(y)[:100])
         # server id: outermost set_option(54, X)
         cur = norm(fields["options"])
         sid = None
